@@ -153,6 +153,16 @@ D = {
  "C07h": ("driver finishes a REP instruction in an inner loop while stepping (same idea as C07e)", "-i / trap flag and REPE/REPNE CMPS/SCAS ending on its comparison with CX > 0"),
  "C09h": ("INT 10h/13h reads its string with `iter().skip().take()` (stops at the end of memory)", "string crossing 0xFFFFF: silently cut off, no abort"),
  "C10h": ("assembler identifier regexes shortened to `\\w` (Unicode)", "label / data label / procedure name with a non-ASCII letter or digit, referenced by an instruction: Internal Error at run time"),
+ "C09i": ("INT 21h/0Ah gets an end-of-input arm that forms DX+1 in 16 bits", "end of input (or only an unreadable line left) when INT 21h/0Ah runs with DX = 0xFFFF: overflow panic in the checked build"),
+ "C12i": ("`dw [v , n]` pushes its data line before the 64 KiB check", "a definition refused for size, then further definitions on the same context/output without clear: the loader still places the refused one"),
+ "C13i": ("macro nesting set: insert-then-check; the name of the 129th level stays in the set after a 'nested too deep' refusal (Context::clear does not reset the set)", "a refused chain deeper than 128, then - on the same context, cleared or not - a use of the macro with the leftover name: 'Recursive macros' though nothing recurses"),
+ "C14i": ("the mapper stays locked when an expansion fails, and Context::clear returns early while it is locked", "a program refused inside a macro expansion, clear(), then an invalid program leaning on the leftover labels / procedures / start: accepted"),
+ "C15i": ("a rejected prompt command ends in a recursive call of user_interface", "about 20000 rejected lines at one prompt: stack overflow"),
+ "C16i": ("the mapper is unlocked only when the expansion succeeded", "a macro use whose expansion is refused, then further texts on the same context without clear: their instructions are mapped to the stale position"),
+ "C17i": ("prompt line buffer hoisted; a non-ASCII line is refused on a fast path that skips the clear", "a valid-UTF-8 non-ASCII line at a prompt, then any command at the same prompt"),
+ "C18i": ("INT 21h remembers 'input ended' when the buffer is empty after read_line (also after a read error)", "a console line that is not valid UTF-8, then further console reads in the same run"),
+ "C19i": ("same change as C13i, judged through C19", "deep-chain refusal, clear(), then a program using the leftover macro name"),
+ "C20i": ("the prompt remembers that stdin failed once and is never shown again", "a prompt line that is not valid UTF-8, then further prompts / breakpoints / q"),
 }
 rows = []
 for d in sorted(glob.glob(os.path.join(ROOT, "seeded", "*"))):
